@@ -1,6 +1,7 @@
 package main
 
 import (
+	"strings"
 	"bufio"
 	"encoding/hex"
 	"encoding/json"
@@ -148,4 +149,58 @@ func enumSeq(n int, maxLen int, f func(idx []int)) {
 
 func decodeRuneGo(b []byte) (rune, int) {
 	return utf8DecodeRune(b)
+}
+
+// arena puts a text into the middle of a larger buffer (guard bytes in front and behind, spare capacity behind) and
+// hands out exactly the text's bytes: the way a caller that keeps many formulas in one buffer passes them in.
+// check reports a write outside the text; scribble overwrites the text itself (the caller reusing its buffer
+// after the parse: nothing a tree holds may change with it).
+type arena struct {
+	buf  []byte
+	n    int
+	text []byte
+}
+
+func newArena(text []byte) *arena {
+	a := &arena{buf: make([]byte, len(text)+32), n: len(text)}
+	for i := range a.buf {
+		a.buf[i] = 0xAA
+	}
+	copy(a.buf[16:], text)
+	a.text = a.buf[16 : 16+len(text)] // capacity reaches into the guard behind the text
+	return a
+}
+
+func (a *arena) check() string {
+	for i := 0; i < 16; i++ {
+		if a.buf[i] != 0xAA {
+			return fmt.Sprintf("the parser wrote to the caller's memory %d bytes in front of the text", 16-i)
+		}
+		if a.buf[16+a.n+i] != 0xAA {
+			return fmt.Sprintf("the parser wrote to the caller's memory %d bytes behind the end of the text (spare capacity of the slice it was handed)", i+1)
+		}
+	}
+	return ""
+}
+
+func (a *arena) scribble() {
+	for i := 0; i < a.n; i++ {
+		a.buf[16+i] = '#'
+	}
+}
+
+// limitWriter keeps the first n bytes written to it (the stack trace of a crashed child can be gigabytes)
+type limitWriter struct {
+	w *strings.Builder
+	n int
+}
+
+func (l *limitWriter) Write(p []byte) (int, error) {
+	if room := l.n - l.w.Len(); room > 0 {
+		if len(p) < room {
+			room = len(p)
+		}
+		l.w.Write(p[:room])
+	}
+	return len(p), nil
 }
